@@ -1,7 +1,334 @@
-/- C08 — statements under construction -/
-import AgpTpf.Model.Remap
+/-
+  C08 — An unedited Pretext map reproduces the input assembly.
+
+  Python: `BuildAssembly.remap_to_input_assembly`, `find_assembly_overlaps`, `add_missing_scaffolds_from_input`,
+  `assemblies_with_scaffolds_fused` (build_assembly.py), `ScaffoldNamer`, `OverhangResolver` (build_utils.py),
+  `IndexedAssembly.find_overlaps`, `OverlapResult.trim_large_overhangs`, `AssemblyStats.make_stats`.
+  Model: `Model/Remap.lean`, `Model/Lookup.lean`.  Helper lemmas: `Proofs/C08*.lean`.
+
+  THE SETTING (`Unedited input pieces err`, defined in `Proofs/C08Remap.lean`).  `pieces : List Piece` lists the Pretext
+  scaffolds; `Piece.ptx p` is the Pretext scaffold named `p.pname` consisting of the ONE row `Piece.bait p` = the
+  forward, untagged fragment `[1, p.stop]` of the input scaffold `p.sc`.  Hypotheses:
+    * input scaffold names pairwise different; contig keys `(name, start, end)` pairwise different over the whole input;
+    * `0 ≤ err`;
+    * per piece (`PieceOk`): `p.sc ∈ input`, `p.sc` well-formed (`WfRows`: rows not empty, first and last row contigs, no
+      negative length, contigs ≥ 1 bp), the piece reaches into the last contig (`lastFragmentStart ≤ p.stop`), ends at
+      most `err` short of the scaffold end (`length − p.stop ≤ err`; it may overshoot by ANY amount), and the scaffold
+      name does not have the shape `<hap>_…_<digits>` (`hapPrefixOfName = none`);
+    * every input scaffold is shown by at most one piece;
+    * input scaffolds shown by NO piece (`AbsentOk`; "sub-texel scaffolds absent from the map") begin and end with a
+      contig, carry no tags, and their first contig's name has no haplotype shape.  (Since fix 43566b8 — every gap row
+      between a left-over contig and its neighbour is kept — consecutive gap rows are ALLOWED: the former hypothesis
+      `NoDoubleGap` is gone, the theorems below are stronger than in the first round.)
+  `pieceOk_of_texel` / `texel_rounding` show that the per-piece hypotheses hold for every texel size `t ≥ 1` and
+  floor/ceil rounding of the texel count when the last contig is at least one texel long, with `err = t + 1`.
+
+  PROVED, all at full strength for the stated setting with ARBITRARILY MANY scaffolds (no `_partial` theorem):
+    N1  `lookup_whole`               the lookup returns the whole scaffold, span `1 .. length`
+    N2  `no_trimming`, `lookup_not_trimmed`   `trim_large_overhangs` leaves it alone
+    N3  `remap_to_input_unedited`    the build: one stored result per Pretext scaffold = the rows of its input scaffold,
+                                     named like the input scaffold, rank 3, no tag / haplotype; `multi = []`, `cuts = 0`;
+                                     `extra` = the absent input scaffolds, whole, no predecessor
+        `remap_to_input_single`      the single-scaffold instance
+    N4  `unedited_map_reproduces_input`   `remap = .ok ([⟨none, true, scs⟩], stats)`: ONE output assembly (primary, curated),
+                                     `scs` = the input scaffolds compared on `(name, rows)` (a permutation, in
+                                     `smart_sort_scaffolds` order, all rank 3 / untagged / no haplotype),
+                                     `stats.cuts = stats.breaks = stats.joins = 0`
+        `output_rows_are_input_rows` every output scaffold has literally the rows of the input scaffold of its name
+
+  WHAT THE HYPOTHESES EXCLUDE (behaviour of the code, not gaps of the proof):
+    * Known exception (F14): when the last contig lies wholly BEHIND the piece end (`p.stop < lastFragmentStart`) the contig
+      is not found by the lookup and becomes a left-over.  For an unpainted map it is re-attached with its input gap
+      (`gapBeforeLeftover` recognises the predecessor), for a painted map it is not (finding F14).  See the `example`
+      at the end: unpainted, the output is still the input scaffold.
+    * REPAIRED DEFECT: before fix 43566b8 an ABSENT input scaffold with two consecutive gap rows did not come back whole
+      (`missingRows` kept only the gap row directly in front of a left-over contig; this file had the evaluated
+      counterexample `absent_double_gap_loses_a_gap`).  Now it does: `absent_double_gap_keeps_gaps` (same concrete input),
+      and in general by `unedited_map_reproduces_input`, whose hypotheses no longer exclude it.
+    * Names of the shape `<hap>_…_<digits>` route a scaffold to the haplotype assembly `<hap>` — by design.
+    * The model's `Stats` has no "haplotig removals" field; no result is labelled `Haplotig` here (all tags are `none`).
+
+  PAINTED VARIANT — also PROVED at full strength (`painted_map_changes_only_names`): every piece carries the tag `Painted`
+  (`Piece.pptx`), the Pretext scaffold names are pairwise different, non-empty and different from the absent scaffolds'
+  names (`PaintedOk`), at least one piece.  Then `remap = .ok ([⟨none, true, scs⟩], stats)` with
+  `scs = smartSorted (paintedNamed prefix input pieces)`: the `i`-th Pretext scaffold comes out with the rows of its
+  input scaffold under the name `prefix ++ natToStr (sizeRank i)` (rank 1), where `sizeRank i` is its 1-based position
+  in the stable order by non-increasing total contig length (`sizeOrder_perm`, `sizeOrder_sorted`, `fragLen_painted`);
+  absent scaffolds keep name and rows (rank 3); `(scs.map rows).Perm (input.map rows)`;
+  `stats.cuts = stats.breaks = stats.joins = 0`.  Only names and order change, not content.
+-/
+import AgpTpf.Proofs.C08PaintOut
 namespace AgpTpf.C08
 open AgpTpf
-theorem appendRows_nil (rows : List Row) (g : Option Gap) : Scaffold.appendRows [] rows g = rows := by
-  cases g <;> simp [Scaffold.appendRows]
+open AgpTpf.C20 (smartSorted keyOf)
+
+/-! ## N1 — one scaffold, lookup -/
+
+/-- **N1.** For a well-formed input scaffold and a forward bait `[1, E]` reaching into its last contig, the lookup
+    returns the whole scaffold: all rows, span `1 .. length` (the scaffold lookup by name is done by the caller). -/
+theorem lookup_whole (sc : Scaffold) (bait : Fragment) (hw : WfRows sc.rows) (hs : bait.start = 1)
+    (hE : lastFragmentStart sc.rows ≤ bait.stop) :
+    ∃ o, findOverlaps sc.rows bait = .ok (some o) ∧ o.rows = sc.rows ∧ o.start = 1 ∧ o.stop = sc.length ∧
+      o.bait = bait :=
+  ⟨_, findOverlaps_whole sc.rows bait hw hs hE, rfl, rfl, rfl, rfl⟩
+
+/-! ## N2 — no trimming -/
+
+/-- **N2.** `trim_large_overhangs` returns a result unchanged when both overhangs are at most the error length. -/
+theorem no_trimming (o : OverlapResult) (err : Int) (hs : o.startOverhang ≤ err) (he : o.endOverhang ≤ err) :
+    o.trimLargeOverhangs err = .ok o :=
+  trimLargeOverhangs_id o err hs he
+
+/-- N1 + N2: the looked-up whole scaffold has start overhang 0 and end overhang `length − E`, and is not trimmed when
+    `length − E ≤ err` (Pretext rounds the end to a texel boundary: `|L − E| < 1 texel < err`). -/
+theorem lookup_not_trimmed (sc : Scaffold) (bait : Fragment) (err : Int) (hw : WfRows sc.rows) (hs : bait.start = 1)
+    (hE : lastFragmentStart sc.rows ≤ bait.stop) (herr : 0 ≤ err) (hclose : sc.length - bait.stop ≤ err) :
+    ∃ o, findOverlaps sc.rows bait = .ok (some o) ∧ o.rows = sc.rows ∧
+      o.startOverhang = 0 ∧ o.endOverhang = sc.length - bait.stop ∧ o.trimLargeOverhangs err = .ok o := by
+  refine ⟨_, findOverlaps_whole sc.rows bait hw hs hE, rfl, ?_, rfl, ?_⟩
+  · show bait.start - 1 = 0
+    omega
+  · apply trimLargeOverhangs_id
+    · show bait.start - 1 ≤ err
+      omega
+    · exact hclose
+
+/-! ## N3 — the build -/
+
+/-- **N3.** `remap_to_input_assembly` on an unedited map (any number of scaffolds, any subset absent). -/
+theorem remap_to_input_unedited (input : List Scaffold) (pieces : List Piece) (prefix_ : Str) (joinGap : Option Gap)
+    (err : Int) (hu : Unedited input pieces err) :
+    ∃ b, remapToInput input (pieces.map Piece.ptx) prefix_ joinGap err = .ok b ∧
+      b.store = pieces.map Piece.res ∧
+      b.extra = (absentOf input pieces).map (fun sc => (absentOut sc, none)) ∧
+      b.multi = [] ∧ b.cuts = 0 ∧ b.joinGap = joinGap ∧ b.namer.autosomePrefix = prefix_ :=
+  remapToInput_unedited input pieces prefix_ joinGap err hu
+
+/-- what is stored for a piece, spelled out -/
+theorem piece_res_fields (p : Piece) :
+    p.res.added = true ∧ p.res.o.rows = p.sc.rows ∧ p.res.o.name = p.sc.name ∧ p.res.o.rank = 3 ∧
+    p.res.o.tag = none ∧ p.res.o.haplotype = none ∧ p.res.o.start = 1 ∧ p.res.o.stop = p.sc.length ∧
+    p.res.o.bait = p.bait ∧ p.res.o.originalName = some p.pname :=
+  ⟨rfl, rfl, rfl, rfl, rfl, rfl, rfl, rfl, rfl, rfl⟩
+
+/-- N3 for a SINGLE input scaffold shown by a single piece -/
+theorem remap_to_input_single (p : Piece) (prefix_ : Str) (joinGap : Option Gap) (err : Int)
+    (hu : Unedited [p.sc] [p] err) :
+    ∃ b, remapToInput [p.sc] [p.ptx] prefix_ joinGap err = .ok b ∧
+      b.store = [p.res] ∧ b.extra = [] ∧ b.multi = [] ∧ b.cuts = 0 := by
+  obtain ⟨b, h, h1, h2, h3, h4, -⟩ := remapToInput_unedited [p.sc] [p] prefix_ joinGap err hu
+  refine ⟨b, h, h1, ?_, h3, h4⟩
+  rw [h2]
+  have : absentOf [p.sc] [p] = [] := by simp [absentOf, isPresent]
+  rw [this]; rfl
+
+/-! ## N4 — the output -/
+
+/-- **N4 / C08.** An unedited Pretext map reproduces the input assembly: exactly one output assembly — the primary one
+    (`key = none`), curated — whose scaffolds are the input scaffolds compared on `(name, rows)` (same names, contigs,
+    gaps, order and orientation inside every scaffold), listed in `smart_sort_scaffolds` order; all of rank 3 with no
+    tag and no haplotype; the statistics report no cuts, breaks or joins.
+    (`hstr`: strands ±1, so that junction sets exist — `make_stats` raises otherwise.) -/
+theorem unedited_map_reproduces_input (input : List Scaffold) (pieces : List Piece) (prefix_ : Str)
+    (joinGap : Option Gap) (err : Int) (hu : Unedited input pieces err) (hne : input ≠ [])
+    (hstr : ∀ sc ∈ input, ∀ f ∈ sc.fragments, f.strand = 1 ∨ f.strand = -1) :
+    ∃ scs stats, remap input (pieces.map Piece.ptx) prefix_ joinGap err =
+        .ok ([{ key := none, curated := true, scaffolds := scs }], stats) ∧
+      scs = smartSorted (outScaffolds input pieces) ∧
+      (scs.map (fun s => (s.name, s.rows))).Perm (input.map (fun s => (s.name, s.rows))) ∧
+      (∀ s ∈ scs, s.tag = none ∧ s.haplotype = none ∧ s.rank = 3) ∧
+      scs.Pairwise (fun a b => keyLe (keyOf a.name) (keyOf b.name) = true) ∧
+      stats.cuts = 0 ∧ stats.breaks = 0 ∧ stats.joins = 0 := by
+  obtain ⟨b, hb, hstore, hextra, -, hcuts, -, -⟩ := remapToInput_unedited input pieces prefix_ joinGap err hu
+  obtain ⟨st, hst, hc, hbk, hj⟩ := assembliesFused_unedited input pieces err hu hne hstr b hstore hextra
+  have hperm : (smartSorted (outScaffolds input pieces)).Perm (outScaffolds input pieces) := C20.stableSort_perm _ _
+  have hplain : ∀ s ∈ smartSorted (outScaffolds input pieces), s.tag = none ∧ s.haplotype = none ∧ s.rank = 3 := by
+    intro s hs
+    have := outScaffolds_plain input pieces s (hperm.subset hs)
+    exact ⟨this.tag, this.hap, this.rank⟩
+  refine ⟨smartSorted (outScaffolds input pieces), st, ?_, rfl, ?_, hplain, ?_, by rw [hc, hcuts], hbk, hj⟩
+  · unfold remap
+    simp only [hb, bind, Except.bind, hst]
+  · exact (hperm.map _).trans (outScaffolds_perm input pieces err hu)
+  · have hs := C20.stableSort_sorted (C20.totalPreorder_comap C20.smartLe_totalPreorder C20.smartKey)
+      (outScaffolds input pieces)
+    have hs' : (smartSorted (outScaffolds input pieces)).Pairwise
+        (fun a b => smartLe (C20.smartKey a) (C20.smartKey b) = true) := hs
+    have hmem : ∀ a, a ∈ smartSorted (outScaffolds input pieces) → a.rank = 3 := fun a ha => (hplain a ha).2.2
+    refine List.Pairwise.imp_of_mem ?_ hs'
+    intro a b ha hb hab
+    simpa [smartLe, C20.smartKey, hmem a ha, hmem b hb] using hab
+
+/-- order and orientation INSIDE every scaffold: each output scaffold has literally the rows of the input scaffold of
+    the same name -/
+theorem output_rows_are_input_rows (input : List Scaffold) (pieces : List Piece) (err : Int)
+    (hu : Unedited input pieces err) (s : Scaffold) (hs : s ∈ smartSorted (outScaffolds input pieces)) :
+    ∃ sc ∈ input, sc.name = s.name ∧ sc.rows = s.rows := by
+  have hperm : (smartSorted (outScaffolds input pieces)).Perm (outScaffolds input pieces) := C20.stableSort_perm _ _
+  have := (outScaffolds_mem input pieces err hu (s.name, s.rows)).1 (List.mem_map.2 ⟨s, hperm.subset hs, rfl⟩)
+  obtain ⟨sc, hsc, e⟩ := List.mem_map.1 this
+  simp only [Prod.mk.injEq] at e
+  exact ⟨sc, hsc, e.1, e.2⟩
+
+/-! ## the painted variant: only names (prefix + rank by size) and order change -/
+
+/-- **C08, painted.** When every Pretext scaffold is painted, the single primary output assembly holds
+    `paintedNamed prefix input pieces` in `smart_sort_scaffolds` order: the rows of every input scaffold unchanged, the
+    presented scaffolds renamed `prefix ++ rank-by-size`, the absent ones as they were; no cuts, breaks or joins. -/
+theorem painted_map_changes_only_names (input : List Scaffold) (pieces : List Piece) (prefix_ : Str)
+    (joinGap : Option Gap) (err : Int) (hp : PaintedOk input pieces err) (hne : pieces ≠ [])
+    (hstr : ∀ sc ∈ input, ∀ f ∈ sc.fragments, f.strand = 1 ∨ f.strand = -1) :
+    ∃ scs stats, remap input (pieces.map Piece.pptx) prefix_ joinGap err =
+        .ok ([{ key := none, curated := true, scaffolds := scs }], stats) ∧
+      scs = smartSorted (paintedNamed prefix_ input pieces) ∧
+      (scs.map (·.rows)).Perm (input.map (·.rows)) ∧
+      stats.cuts = 0 ∧ stats.breaks = 0 ∧ stats.joins = 0 := by
+  obtain ⟨b, hb, hstore, hextra, -, hcuts, -, hpre⟩ :=
+    remapToInput_painted input pieces prefix_ joinGap err hp.unedited
+  obtain ⟨st, hst, hc, hbk, hj⟩ := assembliesFused_painted input pieces err hp hne hstr b hstore hextra
+  rw [hpre] at hst
+  have hperm : (smartSorted (paintedNamed prefix_ input pieces)).Perm (paintedNamed prefix_ input pieces) :=
+    C20.stableSort_perm _ _
+  refine ⟨smartSorted (paintedNamed prefix_ input pieces), st, ?_, rfl, ?_, by rw [hc, hcuts], hbk, hj⟩
+  · unfold remap
+    simp only [hb, bind, Except.bind, hst]
+  · exact (hperm.map _).trans (paintedNamed_rows_perm prefix_ input pieces err hp.unedited)
+
+/-- what `paintedNamed` is: painted scaffold `i` = rows of its input scaffold, named `prefix ++ sizeRank i`, rank 1;
+    then the absent input scaffolds unchanged (rank 3) -/
+theorem paintedNamed_spec (prefix_ : Str) (input : List Scaffold) (pieces : List Piece) :
+    paintedNamed prefix_ input pieces =
+      pieces.mapIdx (fun i p =>
+        ({ name := prefix_ ++ natToStr (sizeRank input pieces i), rows := p.sc.rows, rank := 1,
+           originalName := some p.pname, originalTags := some [sPainted] } : Scaffold)) ++
+      (absentOf input pieces).map (fun sc => ({ name := sc.name, rows := sc.rows, rank := 3 } : Scaffold)) := rfl
+
+/-- `sizeRank i = 1 +` position of `i` in `sizeOrder`, which is a permutation of the piece indices … -/
+theorem size_order_perm (input : List Scaffold) (pieces : List Piece) :
+    (sizeOrder input pieces).Perm (List.range pieces.length) := sizeOrder_perm input pieces
+
+/-- … sorted by non-increasing total contig length of the presented input scaffolds (ties keep Pretext order: the sort
+    is the stable `sorted(..., reverse=True)`) -/
+theorem size_order_sorted (input : List Scaffold) (pieces : List Piece) :
+    (sizeOrder input pieces).Pairwise
+      (fun i j => fragLen (paintedFused input pieces) i ≥ fragLen (paintedFused input pieces) j) ∧
+    ∀ i (h : i < pieces.length), fragLen (paintedFused input pieces) i = pieces[i].sc.fragmentsLength :=
+  ⟨sizeOrder_sorted input pieces, fragLen_painted input pieces⟩
+
+/-! ## Pretext's rounding -/
+
+/-- the per-piece hypotheses hold at ANY texel size `t ≥ 1`, for floor or ceil rounding of the scaffold's texel count,
+    when the last contig is at least one texel long (error length `t + 1`) -/
+theorem piece_ok_at_any_texel_size (input : List Scaffold) (sc : Scaffold) (pname : Str) (oid : Nat) (t k : Int)
+    (hm : sc ∈ input) (hw : WfRows sc.rows) (hnh : hapPrefixOfName sc.name = none) (ht : 1 ≤ t)
+    (hk : k = sc.length / t ∨ k = (sc.length + t - 1) / t)
+    (hlast : ∀ r, sc.rows.getLast? = some r → t ≤ r.length) :
+    PieceOk input (t + 1) { pname := pname, sc := sc, stop := t * k, oid := oid } :=
+  pieceOk_of_texel input sc pname oid t k hm hw hnh ht hk hlast
+
+/-! ## non-vacuity: a concrete map, hypotheses checked, `remap` evaluated independently of the theorems -/
+
+private def g10 : Gap := { length := 10, gapType := "scaffold".toList }
+private def jg : Gap := { length := 200, gapType := "scaffold".toList }
+private def c1 : Fragment := { oid := 1, name := "ctg1".toList, start := 1, stop := 100, strand := 1 }
+private def c2 : Fragment := { oid := 2, name := "ctg2".toList, start := 1, stop := 55, strand := -1 }
+private def c3 : Fragment := { oid := 3, name := "ctg3".toList, start := 1, stop := 3, strand := 1 }
+private def c4 : Fragment := { oid := 4, name := "ctg4".toList, start := 1, stop := 20, strand := 1 }
+/-- 165 bp: two contigs (the second reversed) and a gap -/
+private def s1 : Scaffold := { name := "scaffold_1".toList, rows := [.frag c1, .gap g10, .frag c2] }
+private def g1 : Gap := { length := 1, gapType := "contig".toList }
+private def c5 : Fragment := { oid := 5, name := "ctg5".toList, start := 1, stop := 2, strand := -1 }
+/-- 7 bp: shorter than a texel, absent from the map; TWO consecutive gap rows between its contigs -/
+private def s2 : Scaffold := { name := "scaffold_2".toList, rows := [.frag c3, .gap g1, .gap g1, .frag c5] }
+/-- 20 bp -/
+private def s3 : Scaffold := { name := "scaffold_10".toList, rows := [.frag c4] }
+private def inp : List Scaffold := [s1, s2, s3]
+/-- texel = 8 bp, `err = 9`: `scaffold_10` rounded UP to 3 texels (24), `scaffold_1` rounded DOWN to 20 texels (160);
+    Pretext lists them in its own order -/
+private def pcs : List Piece :=
+  [{ pname := "Scaffold_1".toList, sc := s3, stop := 24, oid := 11 },
+   { pname := "Scaffold_2".toList, sc := s1, stop := 160, oid := 12 }]
+
+example : Unedited inp pcs 9 := unedited_of_check _ _ _ (by decide +kernel)
+example : inp ≠ [] ∧ ∀ sc ∈ inp, ∀ f ∈ sc.fragments, f.strand = 1 ∨ f.strand = -1 := by decide
+example : WfRows s1.rows ∧ lastFragmentStart s1.rows ≤ 160 ∧ s1.length - 160 ≤ 9 :=
+  ⟨wfRows_of_check _ (by decide), by decide, by decide⟩
+/-- the rounding lemma applies: 165 / 8 = 20 texels -/
+example : PieceOk inp (8 + 1) { pname := "Scaffold_2".toList, sc := s1, stop := 8 * 20, oid := 12 } :=
+  piece_ok_at_any_texel_size inp s1 _ _ 8 20 (by decide) (wfRows_of_check _ (by decide)) (by decide) (by decide)
+    (Or.inl (by decide)) (by
+      intro r hr
+      have h : s1.rows.getLast? = some (.frag c2) := by decide
+      rw [h] at hr; cases hr; decide)
+
+/-- what the theorem predicts … -/
+example : (smartSorted (outScaffolds inp pcs)).map (fun s => (s.name, s.rows)) =
+    [(s1.name, s1.rows), (s2.name, s2.rows), (s3.name, s3.rows)] := by decide +kernel
+
+/-- … and what the model computes (evaluated by the kernel, not through the theorems): one primary assembly holding
+    exactly the predicted scaffold list — the three input scaffolds, `scaffold_2` before `scaffold_10` (natural order) —
+    and zero cuts / breaks / joins -/
+example : (remap inp (pcs.map Piece.ptx) "SUPER_".toList (some jg) 9).toOption.map (·.1) =
+    some [{ key := none, curated := true, scaffolds := smartSorted (outScaffolds inp pcs) }] := by decide +kernel
+
+example : (remap inp (pcs.map Piece.ptx) "SUPER_".toList (some jg) 9).toOption.map
+      (fun r => r.1.map (fun a => a.scaffolds.map (fun s => (s.name, s.rows)))) =
+    some [[(s1.name, s1.rows), (s2.name, s2.rows), (s3.name, s3.rows)]] := by decide +kernel
+
+example : (remap inp (pcs.map Piece.ptx) "SUPER_".toList (some jg) 9).toOption.map
+      (fun r => [r.2.cuts, r.2.breaks, r.2.joins]) = some [0, 0, 0] := by decide +kernel
+
+/-- the single-scaffold, two-contig instance (end rounded UP to 168) -/
+private def p1 : Piece := { pname := "Scaffold_1".toList, sc := s1, stop := 168, oid := 12 }
+example : Unedited [p1.sc] [p1] 9 := unedited_of_check _ _ _ (by decide +kernel)
+example : (remapToInput [s1] [p1.ptx] [] (some jg) 9).toOption.map (fun b => b.store) = some [p1.res] := by
+  decide +kernel
+example : (remapToInput [s1] [p1.ptx] [] (some jg) 9).toOption.map (fun b => (b.multi, b.cuts)) = some ([], 0) := by
+  decide +kernel
+example : (remapToInput [s1] [p1.ptx] [] (some jg) 9).toOption.map (fun b => b.extra.length) = some 0 := by
+  decide +kernel
+
+/-! ## outside the hypotheses (evaluated) -/
+
+/-- Known exception: the piece ends BEFORE the last contig starts (here at 105 < 111).  The last contig is a left-over;
+    for this unpainted map it is re-attached with its input gap, so the output still equals the input scaffold. -/
+example : (remap [s1] [({ pname := "Scaffold_1".toList, sc := s1, stop := 105 } : Piece).ptx] [] (some jg) 9).toOption.map
+      (fun r => r.1.map (fun a => a.scaffolds.map (fun s => (s.name, s.rows)))) =
+    some [[(s1.name, s1.rows)]] := by decide +kernel
+
+/-- … whereas for the PAINTED map the left-over contig is not re-attached (finding F14): two scaffolds come out
+    (and one break is counted). -/
+example : (remap [s1]
+      [{ name := "Scaffold_1".toList,
+         rows := [.frag { name := s1.name, start := 1, stop := 105, strand := 1, tags := [sPainted] }] }]
+      "SUPER_".toList (some jg) 9).toOption.map
+      (fun r => r.1.map (fun a => a.scaffolds.map (fun s => (s.name, s.rows)))) =
+    some [[("SUPER_1".toList, [.frag c1]), ("scaffold_1".toList, [.frag c2])]] := by decide +kernel
+
+/-- Documents the repaired defect (fix 43566b8).  The SAME concrete input on which the model (and the code) used to
+    lose the first of two consecutive gap rows of an absent scaffold — the former theorem `absent_double_gap_loses_a_gap`
+    had `[c3, gap 200, c4]` on the right — now comes back whole. -/
+theorem absent_double_gap_keeps_gaps :
+    (remap [{ name := "tiny".toList, rows := [.frag c3, .gap g10, .gap jg, .frag c4] }] [] [] (some jg) 9).toOption.map
+      (fun r => r.1.map (fun a => a.scaffolds.map (fun s => (s.name, s.rows)))) =
+    some [[("tiny".toList, [.frag c3, .gap g10, .gap jg, .frag c4])]] := by decide +kernel
+
+/-- the same input is now inside the hypotheses of the general theorem -/
+example : Unedited [{ name := "tiny".toList, rows := [.frag c3, .gap g10, .gap jg, .frag c4] }] [] 9 :=
+  unedited_of_check _ _ _ (by decide +kernel)
+
+/-- Painted variant: hypotheses satisfiable, prediction and independent evaluation agree — `scaffold_1` (155 bp of
+    contigs) becomes `SUPER_1`, `scaffold_10` (20 bp) `SUPER_2`, the absent `scaffold_2` keeps its name; rows unchanged. -/
+example : PaintedOk inp pcs 9 ∧ pcs ≠ [] := ⟨paintedOk_of_check _ _ _ (by decide +kernel), by decide⟩
+
+example : (smartSorted (paintedNamed "SUPER_".toList inp pcs)).map (fun s => (s.name, s.rows)) =
+    [("SUPER_1".toList, s1.rows), ("SUPER_2".toList, s3.rows), (s2.name, s2.rows)] := by decide +kernel
+
+example : (remap inp (pcs.map Piece.pptx) "SUPER_".toList (some jg) 9).toOption.map (·.1) =
+    some [{ key := none, curated := true, scaffolds := smartSorted (paintedNamed "SUPER_".toList inp pcs) }] := by
+  decide +kernel
+
+example : (remap inp (pcs.map Piece.pptx) "SUPER_".toList (some jg) 9).toOption.map
+      (fun r => [r.2.cuts, r.2.breaks, r.2.joins]) = some [0, 0, 0] := by decide +kernel
+
 end AgpTpf.C08
